@@ -5,7 +5,7 @@ pid = sys.argv[1].upper()
 rnd = sys.argv[2] if len(sys.argv) > 2 else ""
 wt = f"/tmp/wt-{pid.lower()}{rnd}"
 prior = ""
-if rnd:
+if rnd and "noprior" not in sys.argv[3:]:
     import os
     f = "/verif/notes/prior_descriptions.json" if os.path.exists("/verif/notes/prior_descriptions.json") else "/verif/notes/round1_descriptions.json"
     if os.path.exists(f):
